@@ -1,6 +1,7 @@
 package term
 
 import (
+	"fmt"
 	"strings"
 
 	"git.sr.ht/~rockorager/vaxis"
@@ -31,7 +32,7 @@ var verifSpecials = []rune{vaxis.KeyUp, vaxis.KeyDown, vaxis.KeyRight, vaxis.Key
 // original key and modifiers - for the chord classes the xterm legacy encoding can express.
 func VerifC13Keys() {
 	var key vaxis.Key
-	switch zzverif.Choose("class", 6) {
+	switch zzverif.Choose("class", 7) {
 	case 0: // plain printable
 		c := rune(0x20 + zzverif.Choose("char", 0x7F-0x20))
 		key = vaxis.Key{Keycode: c, Text: string(c)}
@@ -51,6 +52,9 @@ func VerifC13Keys() {
 		l := rune('a' + zzverif.Choose("letter", 26))
 		zzverif.Assume(l != 'h' && l != 'i' && l != 'j' && l != 'm')
 		key = vaxis.Key{Keycode: l, Modifiers: vaxis.ModCtrl}
+	case 6: // Ctrl + the punctuation keys that have C0 codes of their own (0x1C-0x1F)
+		c := []rune{'\\', ']', '^', '_'}[zzverif.Choose("punct", 4)]
+		key = vaxis.Key{Keycode: c, Modifiers: vaxis.ModCtrl}
 	case 4: // special key with any of Shift/Alt/Ctrl
 		k := verifSpecials[zzverif.Choose("special", len(verifSpecials))]
 		mods := vaxis.ModifierMask(zzverif.Uint8("mods")) & (vaxis.ModShift | vaxis.ModAlt | vaxis.ModCtrl)
@@ -147,6 +151,48 @@ func VerifC13Mouse() {
 		zzverif.Assert(pb == "\x1b[200~\x1b[201~", "paste-brackets-forwarded")
 	} else {
 		zzverif.Assert(pb == "", "no-paste-brackets-without-2004")
+	}
+	zzverif.Reach("end")
+}
+
+// VerifC13Modes: the modes the child asks for are the modes the forwarding code consults:
+// from any combination of the input-related modes, DECSET / DECRST of one of them (cursor
+// keys 1, mouse 1000 / 1002 / 1003 / 1006, alternate scroll 1007, bracketed paste 2004) or
+// ESC = / ESC > (keypad) changes exactly that mode, to exactly the requested value, and the
+// child's DECRQM for it reports it.
+func VerifC13Modes() {
+	vt := verifModel(4, 3)
+	get := func() [8]bool {
+		return [8]bool{vt.mode.decckm, vt.mode.mouseButtons, vt.mode.mouseDrag, vt.mode.mouseMotion, vt.mode.mouseSGR,
+			vt.mode.altScroll, vt.mode.paste, vt.mode.deckpam}
+	}
+	vt.mode.decckm, vt.mode.mouseButtons, vt.mode.mouseDrag, vt.mode.mouseMotion = zzverif.Bool("m1"), zzverif.Bool("m1000"), zzverif.Bool("m1002"), zzverif.Bool("m1003")
+	vt.mode.mouseSGR, vt.mode.altScroll, vt.mode.paste, vt.mode.deckpam = zzverif.Bool("m1006"), zzverif.Bool("m1007"), zzverif.Bool("m2004"), zzverif.Bool("keypad")
+	before := get()
+	which := zzverif.Choose("mode", 8)
+	set := zzverif.Bool("set")
+	numbers := []int{1, 1000, 1002, 1003, 1006, 1007, 2004}
+	if which == 7 {
+		if set {
+			vt.esc("=")
+		} else {
+			vt.esc(">")
+		}
+	} else if set {
+		vt.csi("?h", [][]int{{numbers[which]}})
+	} else {
+		vt.csi("?l", [][]int{{numbers[which]}})
+	}
+	want := before
+	want[which] = set
+	zzverif.Assert(get() == want, "mode-request-changes-exactly-that-mode")
+	if which < 7 {
+		vt.csi("?$p", [][]int{{numbers[which]}})
+		st := 2
+		if set {
+			st = 1
+		}
+		zzverif.Assert(string(zzverif.FileLog(vt.pty)) == fmt.Sprintf("\x1b[?%d;%d$y", numbers[which], st), "mode-report-tells-the-mode")
 	}
 	zzverif.Reach("end")
 }
